@@ -155,3 +155,286 @@ def random_op2(rng, n, in_use, force_p=0.3):
     if k < 0.98:
         return "add 1"
     return f"add {rng.randint(2, 4)}"
+
+
+# ---------------------------------------------------------------------------------------------
+# 3-D maps (CMap3): faces glued by 2-/3-links, exhaustive small maps, polyhedra
+# ---------------------------------------------------------------------------------------------
+
+OPS3_LINK = ("link", "sew")
+OPS3_UNLINK = ("unlink", "unsew")
+
+
+def face_shapes(max_sides=4):
+    """(sides, closed) for every face shape: closed polygons (1 side = a β1 self-loop) and open chains"""
+    return [(k, c) for k in range(1, max_sides + 1) for c in (True, False)]
+
+
+def faces3_rows(shapes):
+    """β rows of the 3-map made of the given separate faces (list of (sides, closed)), darts numbered
+    consecutively.  returns (n, [b0, b1, b2, b3], faces) with faces = [(darts, closed)]"""
+    n = sum(k for k, _ in shapes)
+    b0 = [0] * (n + 1)
+    b1 = [0] * (n + 1)
+    faces = []
+    d = 1
+    for k, closed in shapes:
+        ds = list(range(d, d + k))
+        for i in range(k - 1):
+            b1[ds[i]] = ds[i + 1]
+            b0[ds[i + 1]] = ds[i]
+        if closed:
+            b1[ds[-1]] = ds[0]
+            b0[ds[0]] = ds[-1]
+        faces.append((ds, closed))
+        d += k
+    return n, [b0, b1, [0] * (n + 1), [0] * (n + 1)], faces
+
+
+def faces3_maps(max_faces=3, max_sides=4):
+    """all ways to build <= max_faces faces with <= max_sides sides by 1-links, closed and open"""
+    sh = face_shapes(max_sides)
+    for nf in range(1, max_faces + 1):
+        for shapes in itertools.product(sh, repeat=nf):
+            yield faces3_rows(list(shapes))
+
+
+def wf_maps3(n, with_unused=False):
+    """all 3-maps with darts 1..n satisfying WF of Model/WF.lean with nb = 4 (β1 any partial injection,
+    β2 and β3 any fixed-point-free partial involutions, independently — the mirror condition is *not*
+    part of WF): yields (b0, b1, b2, b3, unused)"""
+    darts = list(range(1, n + 1))
+    subsets = [()]
+    if with_unused:
+        subsets = [s for k in range(0, n + 1) for s in itertools.combinations(darts, k)]
+    for un in subsets:
+        used = [d for d in darts if d not in un]
+        for b1m in partial_injections(used):
+            b1 = [0] * (n + 1)
+            b0 = [0] * (n + 1)
+            for a, b in b1m.items():
+                b1[a] = b
+                b0[b] = a
+            for b2m in matchings(used):
+                b2 = [0] * (n + 1)
+                for a, b in b2m.items():
+                    b2[a] = b
+                for b3m in matchings(used):
+                    b3 = [0] * (n + 1)
+                    for a, b in b3m.items():
+                        b3[a] = b
+                    u = [1 if d in un else 0 for d in range(n + 1)]
+                    yield b0, b1, b2, b3, u
+
+
+def ops3_all(darts, dims=(1, 2, 3), force=False, extra=True):
+    """every link/unlink/sew/unsew of every dimension with every argument pair among `darts`"""
+    f = "f" if force else ""
+    ops = []
+    for i in dims:
+        for l in darts:
+            for r in darts:
+                ops.append(f"{f}link {i} {l} {r}")
+                ops.append(f"{f}sew {i} {l} {r}")
+            ops.append(f"{f}unlink {i} {l}")
+            ops.append(f"{f}unsew {i} {l}")
+    if extra:
+        for l in darts:
+            ops.append(f"rm {l}")
+        ops += ["ins", "add 1"]
+    return ops
+
+
+def random_op3(rng, in_use, force_p=0.3, dims=(1, 2, 3), weights=None, alloc=True):
+    """one random editing op on a 3-map with arguments among the in-use darts"""
+    if not in_use:
+        return rng.choice(["ins", "add 1", "add 2"])
+    l, r = rng.choice(in_use), rng.choice(in_use)
+    f = "f" if rng.random() < force_p else ""
+    i = rng.choice(dims)
+    k = rng.random()
+    if alloc and k > 0.95:
+        return rng.choice([f"rm {l}", "ins", "add 1", f"add {rng.randint(2, 3)}"])
+    kind = rng.choices(["link", "sew", "unlink", "unsew"], weights or [3, 4, 2, 3])[0]
+    if kind in OPS3_LINK:
+        if i != 1 and l == r:
+            i = 1
+        return f"{f}{kind} {i} {l} {r}"
+    return f"{f}{kind} {i} {l}"
+
+
+OBS3_POLICIES = ("v", "vl", "e", "f", "fl", "vol", "voll", "c10", "c01", "c23", "c3", "c0123")
+
+
+def observe3(darts, nt=False, policies=OBS3_POLICIES):
+    """observation lines of C03 on a 3-map: all ids and orbits of the given darts, all iterators"""
+    s = "nt" if nt else ""
+    out = []
+    for d in darts:
+        out += [f"vid{s} {d}", f"eid{s} {d}", f"fid{s} {d}", f"volid{s} {d}"]
+        for p in policies:
+            out.append(f"orbit{s} {p} {d}")
+    out += ["iterv", "itere", "iterf", "itervol"]
+    return out
+
+
+def faces3_cases(rng, max_faces=2, max_sides=4, mask=31, frac=1.0, per_map=None, with_null=False,
+                 pre_ops=0, observe=False):
+    """single-op cases over the glued-faces family: for every map of `faces3_maps` and every
+    link/unlink/sew/unsew (all dimensions, all argument pairs; `per_map` = random sample size),
+    optionally after `pre_ops` random ops (which create 2-/3-links).  yields (name, lines)."""
+    cid = 0
+    for n, rows, faces in faces3_maps(max_faces, max_sides):
+        if frac < 1.0 and rng.random() > frac:
+            continue
+        darts = list(range(1, n + 1))
+        args = ([0] if with_null else []) + darts + ([n + 1] if with_null else [])
+        load = load_line(3, n, mask, rows, [0] * (n + 1))
+        ops = ops3_all(args, force=False, extra=False) + ops3_all(args, force=True, extra=False)
+        if per_map is not None and per_map < len(ops):
+            ops = rng.sample(ops, per_map)
+        vals = value_lines(rng, n, mask, dim=3, pv=rng.choice([1.0, 0.6, 0.0]), pa=rng.choice([1.0, 0.5]))
+        pre = [random_op3(rng, darts, alloc=False, weights=[4, 4, 1, 1]) for _ in range(pre_ops)]
+        for op in ops:
+            cid += 1
+            lines = [load] + vals + pre + [op, "snap", "wf"]
+            if observe:
+                lines += observe3(darts)
+            yield f"f3-{cid}", lines
+
+
+# --- polyhedra ---------------------------------------------------------------------------------
+# faces are lists of vertex indices, oriented outward; every edge appears once in each direction
+
+CUBE = ([(0, 0, 0), (1, 0, 0), (1, 1, 0), (0, 1, 0), (0, 0, 1), (1, 0, 1), (1, 1, 1), (0, 1, 1)],
+        [[0, 3, 2, 1], [4, 5, 6, 7], [0, 1, 5, 4], [1, 2, 6, 5], [2, 3, 7, 6], [3, 0, 4, 7]])
+TETRA = ([(0, 0, 0), (1, 0, 0), (0, 1, 0), (0, 0, 1)],
+         [[0, 2, 1], [0, 1, 3], [1, 2, 3], [2, 0, 3]])
+PRISM = ([(0, 0, 0), (1, 0, 0), (0, 1, 0), (0, 0, 1), (1, 0, 1), (0, 1, 1)],
+         [[0, 2, 1], [3, 4, 5], [0, 1, 4, 3], [1, 2, 5, 4], [2, 0, 3, 5]])
+PYRAMID = ([(0, 0, 0), (1, 0, 0), (1, 1, 0), (0, 1, 0), (1 / 2, 1 / 2, 1)],
+           [[0, 3, 2, 1], [0, 1, 4], [1, 2, 4], [2, 3, 4], [3, 0, 4]])
+
+
+def poly_translate(poly, v):
+    pts, faces = poly
+    return [tuple(p[i] + v[i] for i in range(3)) for p in pts], faces
+
+
+def poly_mirror(poly, axis=0, plane=0):
+    """reflect through the plane `coordinate[axis] = plane` (faces are reversed to stay outward)"""
+    pts, faces = poly
+    npts = []
+    for p in pts:
+        q = list(p)
+        q[axis] = 2 * plane - q[axis]
+        npts.append(tuple(q))
+    return npts, [list(reversed(f)) for f in faces]
+
+
+def _tok(x):
+    from fractions import Fraction
+    q = Fraction(x).limit_denominator(1 << 20)
+    return str(q.numerator) if q.denominator == 1 else f"{q.numerator}/{q.denominator}"
+
+
+class Poly3:
+    """protocol lines building one polyhedron on darts first..first+ndarts-1 of a 3-map.
+    `dart[(u, v)]` = the dart of the oriented edge u->v; `face_darts[k]` = darts of face k;
+    `origin[d]` = coordinates of the vertex dart d starts from."""
+
+    def __init__(self, poly, first=1):
+        pts, faces = poly
+        self.pts, self.faces, self.first = pts, faces, first
+        self.dart, self.face_darts, self.origin = {}, [], {}
+        d = first
+        for f in faces:
+            ds = []
+            for i, u in enumerate(f):
+                v = f[(i + 1) % len(f)]
+                assert (u, v) not in self.dart, "edge used twice in the same direction"
+                self.dart[(u, v)] = d
+                self.origin[d] = pts[u]
+                ds.append(d)
+                d += 1
+            self.face_darts.append(ds)
+        for (u, v) in self.dart:
+            assert (v, u) in self.dart, "open surface"
+        self.ndarts = d - first
+        self.darts = list(range(first, d))
+
+    def lines(self, values=True, sew=True, force=True, link1="link", attrs=()):
+        """1-link the faces, write one point per dart (its origin) and the given attribute lines,
+        then 2-sew (or 2-link) the faces"""
+        f = "f" if force else ""
+        out = []
+        for ds in self.face_darts:
+            for i, a in enumerate(ds):
+                out.append(f"{f}{link1} 1 {a} {ds[(i + 1) % len(ds)]}")
+        if values:
+            for d in self.darts:
+                out.append("wv %d %s %s %s" % ((d,) + tuple(_tok(c) for c in self.origin[d])))
+        out += list(attrs)
+        op2 = "sew" if sew else "link"
+        for (u, v), a in self.dart.items():
+            if u < v:
+                out.append(f"{f}{op2} 2 {a} {self.dart[(v, u)]}")
+        return out
+
+
+def glue_pairs(pa, pb):
+    """dart pairs (a, b) such that 3-sewing a (in polyhedron pa) with b (in pb) identifies two
+    geometrically coinciding, oppositely oriented faces"""
+    out = []
+    for fa in pa.face_darts:
+        ca = [pa.origin[d] for d in fa]
+        for fb in pb.face_darts:
+            if len(fb) != len(fa) or set(pb.origin[d] for d in fb) != set(ca):
+                continue
+            k = len(fa)
+            for a_i, a in enumerate(fa):
+                for b_i, b in enumerate(fb):
+                    # a: u->v, b must be v->u, and walking β1 from a / β0 from b must stay matched
+                    ok = all(pa.origin[fa[(a_i + s) % k]] == pb.origin[fb[(b_i + 1 - s) % k]] for s in range(k))
+                    if ok:
+                        out.append((a, b))
+    return out
+
+
+def two_cells_lines(rng, pa_poly, pb_poly, mask=31, values=True, sew=True, force=True, glue="sew",
+                    pa=0.5, full_default=True):
+    """`new 3 n mask` + two polyhedra + one 3-sew/3-link gluing them on a coinciding face (if any).
+    returns (lines, Poly3 a, Poly3 b, glue pair or None)"""
+    a = Poly3(pa_poly, 1)
+    b = Poly3(pb_poly, 1 + a.ndarts)
+    n = a.ndarts + b.ndarts
+
+    def attr_lines(p):
+        # storages with the default (failing) laws get a value on every dart so that the sews succeed
+        out = []
+        for d in p.darts:
+            for st in range(1, 6):
+                if (mask >> (st - 1)) & 1 and (rng.random() < pa or (full_default and st in (2, 5))):
+                    out.append(f"wa {st} {d} {100 * st + d}")
+        return out
+
+    lines = [f"new 3 {n} {mask}"] + a.lines(values, sew, force, attrs=attr_lines(a)) \
+        + b.lines(values, sew, force, attrs=attr_lines(b))
+    pairs = glue_pairs(a, b)
+    pair = rng.choice(pairs) if pairs else None
+    if pair:
+        lines.append(f"{'f' if force else ''}{glue} 3 {pair[0]} {pair[1]}")
+    return lines, a, b, pair
+
+
+def cell_pairs():
+    """(name, polyhedron A, polyhedron B) sharing exactly one face geometrically"""
+    return [
+        ("cube+cube", CUBE, poly_translate(CUBE, (1, 0, 0))),
+        ("tet+tet", TETRA, poly_mirror(TETRA, 2, 0)),
+        ("prism+prism", PRISM, poly_translate(PRISM, (0, 0, 1))),
+        ("prism+tet", PRISM, poly_mirror(TETRA, 2, 0)),
+        ("cube+pyramid", CUBE, poly_translate(PYRAMID, (0, 0, 1))),
+        ("cube+prism", CUBE, poly_mirror(PRISM, 1, 0)),
+        ("pyramid+pyramid", PYRAMID, poly_mirror(PYRAMID, 2, 0)),
+    ]
